@@ -173,6 +173,8 @@ def vector_src(ns, nl, npar, ni2c, other, same_name=False, lcd_order="parallel-f
         lines = lines[:3 + (2 if other else 0)] + lcds + lines[3 + (2 if other else 0):]
     else:
         lines += lcds
+    if lcd_order == "name-rebound-to-servo":
+        lines += ["dev = Button(5)", "dev2 = LCD(i2c_addr=38)" if ni2c else "dev2 = Button(6)", "dev = Servo(10)", "dev2 = Servo(11)"]
     lines.append({"header-comment": "while True:  # main loop", "header-paren": "while (True):", "header-blank": "while True :   "}.get(lcd_order, "while True:"))
     if lcd_order == "comment-before-loop-declarations":
         lines += ["# a comment line at column 0 inside the loop body", "    # and an indented one"]
@@ -203,16 +205,19 @@ def extra_obligations(mods, tier, seed):
     from pathlib import Path
     PIO = real("Reduino.toolchain.pio")
     board = sorted(PIO.BOARD_TO_PLATFORM)[0]
+    mega_board = next((b for b, pl in sorted(PIO.BOARD_TO_PLATFORM.items()) if pl == "atmelmegaavr"), board)
     scratch = Path(tempfile.mkdtemp(prefix="c14-ini-"))
     ini_cache = {}
 
-    def libs_in_ini(libs):
+    def libs_in_ini(libs, flavour=0):
         """what a PlatformIO-style reader finds under lib_deps after the real write_project rendered these libraries"""
-        key = tuple(libs)
+        key = (tuple(libs), flavour)
         if key not in ini_cache:
             d = scratch / f"p{len(ini_cache)}"
             d.mkdir()
-            PIO.write_project(d, "void setup(){}\nvoid loop(){}\n", "COM3", platform=PIO.BOARD_TO_PLATFORM[board], board=board, lib_deps=list(libs))
+            # the two platform families render their own ini: alternate between an atmelavr and an atmelmegaavr board
+            b_ = board if flavour == 0 else mega_board
+            PIO.write_project(d, "void setup(){}\nvoid loop(){}\n", "COM3", platform=PIO.BOARD_TO_PLATFORM[b_], board=b_, lib_deps=list(libs))
             cp = configparser.RawConfigParser()
             try:
                 cp.read(d / "platformio.ini", encoding="utf-8")
@@ -226,6 +231,7 @@ def extra_obligations(mods, tier, seed):
     space = [(ns, nl, npar, ni2c, other, "parallel-first") for ns, nl, npar, ni2c, other in itertools.product(range(3), range(3), range(3), range(3), (False, True))]
     # declaration order of the two LCD kinds (and of displays relative to servos) must not matter
     # the spelling of the main-loop header and comment lines before the declarations at the top of the loop body must not matter either
+    space += [(0, 0, npar, ni2c, other, "name-rebound-to-servo") for npar, ni2c, other in itertools.product((0, 1), (0, 1), (False, True))]
     space += [(ns, nl, npar, ni2c, other, "servo-default-pin") for ns, nl, npar, ni2c, other in itertools.product((0, 1), (0, 1), (0, 1), (0, 1), (False, True)) if ns + nl]
     space += [(ns, nl, npar, ni2c, other, order) for order in ("header-comment", "header-paren", "header-blank", "comment-before-loop-declarations")
               for ns, nl, npar, ni2c, other in itertools.product((0, 1), (1, 2), (0, 1), (0, 1), (False, True))]
@@ -240,8 +246,10 @@ def extra_obligations(mods, tier, seed):
             fails["requested-iff-declared"].append({"vector": [ns, nl, npar, ni2c, other, order], "error": f"{type(ex).__name__}: {ex}"})
             continue
         declared = set()
-        if ns + nl:
+        if ns + nl or order == "name-rebound-to-servo":
             declared.add("Servo")
+        if order == "name-rebound-to-servo" and ni2c:
+            declared.add("LiquidCrystal_I2C")
         if npar:
             declared.add("LiquidCrystal")
         if ni2c:
@@ -256,9 +264,11 @@ def extra_obligations(mods, tier, seed):
             fails["instantiated-iff-declared"].append(vec)
         if len(libs) != len(set(libs)) or len(includes) != len(set(includes)):
             fails["no-duplicates"].append(vec)
-        ini_libs, stray = libs_in_ini(libs)
-        if set(ini_libs) != declared or len(ini_libs) != len(set(ini_libs)) or stray:
-            fails["requested-in-platformio-ini-iff-declared"].append(dict(vec, lib_deps_read_back=ini_libs, stray_keys=stray))
+        for flavour in (0, 1):
+            ini_libs, stray = libs_in_ini(libs, flavour)
+            if set(ini_libs) != declared or len(ini_libs) != len(set(ini_libs)) or [k_ for k_ in stray if k_ != "monitor_port"]:
+                fails["requested-in-platformio-ini-iff-declared"].append(dict(vec, board=[board, mega_board][flavour], lib_deps_read_back=ini_libs, stray_keys=stray))
+                break
         if len(samples) < 5 and n % 37 == 0:
             samples.append(vec)
     shutil.rmtree(scratch, ignore_errors=True)
